@@ -274,7 +274,7 @@ func (w *world) close() {
 func newWorld(scen string) *world {
 	w := &world{scen: scen, named: map[string]*types.Block{}}
 	switch scen {
-	case "lin":
+	case "lin", "rst":
 		w.n = 1
 	default:
 		w.n = 3
@@ -430,6 +430,7 @@ func (w *world) parentOf(b *types.Block) *types.Block {
 
 var lists = map[string][]string{
 	"lin":   {"-", "T", "T2", "T3", "B", "B2", "TT", "TB", "V"},
+	"rst":   {"-", "T", "B", "U"},
 	"fork":  {"-", "T", "T2", "T3", "B", "U"},
 	"miner": {"T", "U"},
 }
@@ -446,6 +447,21 @@ func (w *world) enabled(evs []string, results []string) []string {
 				continue
 			}
 			for _, l := range lists["lin"] {
+				en = append(en, fmt.Sprintf("blk %s i%d on %s by 0", l, i, hn))
+			}
+		}
+		en = append(en, "restart")
+	case "rst":
+		// restart-centred: a small block menu (empty block, T, box(T,U), U) at two instants inside the
+		// window, and the restart, one level deeper than "lin": what the replay cache holds after it was
+		// reloaded from disk (blocks without transactions, boxes) decides whether T can run again
+		head := w.o.BC.CurrentBlock()
+		hn := w.nameOf(head)
+		for i, inst := range instants {
+			if uint32(int(t0)+inst) < head.Time() || (inst != 0 && inst != 1799) {
+				continue
+			}
+			for _, l := range lists["rst"] {
 				en = append(en, fmt.Sprintf("blk %s i%d on %s by 0", l, i, hn))
 			}
 		}
@@ -522,7 +538,7 @@ func (w *world) heldNames() []string {
 
 func run(hist []string) core.Outcome {
 	if len(hist) == 0 {
-		return core.Outcome{Key: "root", Enabled: []string{"fork", "lin", "miner"}}
+		return core.Outcome{Key: "root", Enabled: []string{"fork", "lin", "miner", "rst"}}
 	}
 	w := newWorld(hist[0])
 	defer w.close()
@@ -612,14 +628,14 @@ func (w *world) parentOfOrGenesis(b *types.Block) *types.Block {
 	return w.parentOf(b)
 }
 
-var depth = map[string]int{"lin": 3, "fork": 3, "miner": 4}
+var depth = map[string]int{"lin": 3, "fork": 3, "miner": 4, "rst": 4}
 
 func main() {
 	core.ParseFlags()
 	node.Quiet()
 	txs = mkTxs()
 	if core.Thorough() {
-		depth = map[string]int{"lin": 4, "fork": 4, "miner": 5}
+		depth = map[string]int{"lin": 4, "fork": 4, "miner": 5, "rst": 6}
 	} else {
 		// quick: without the instant 59 s before the last second of the window (bucket edge inside the window)
 		instants = []int{-1, 0, 1799, 1800, 1801, 1861}
@@ -645,7 +661,7 @@ func main() {
 	}
 	core.ServeIfWorker(safe)
 	r := core.NewResult(prop, "model_checking")
-	r.Rule = "BFS over histories of factory-built blocks (tx-list menu: T, T re-encoded, box(T,U), T twice, T + box, early-expiring V) at instants around the expiration window and pruning horizon (linear scenario, 1 deputy, with restarts), on any held parent by two different in-turn-able deputies (fork scenario, 3 deputies), and pool/mine/sibling events on a node that is deputy 0 (miner scenario); state = node's block tree + pool; distinct outcome = (scenario, last event kind, verdict, branches, executed count)"
+	r.Rule = "BFS over histories of factory-built blocks (tx-list menu: T, T re-encoded, box(T,U), T twice, T + box, early-expiring V) at instants around the expiration window and pruning horizon (linear scenario, 1 deputy, with restarts; plus a restart-centred scenario one to two levels deeper over the menu {empty block, T, box(T,U), U} at two instants), on any held parent by two different in-turn-able deputies (fork scenario, 3 deputies), and pool/mine/sibling events on a node that is deputy 0 (miner scenario); state = node's block tree + pool; distinct outcome = (scenario, last event kind, verdict, branches, executed count)"
 	r.Assume = []string{"payload identity = signing hash + recovered signer set", "blocks are built by the real assembler; the node's clock is later than every block"}
 	max := 0
 	for _, d := range depth {
